@@ -113,17 +113,32 @@ pub fn compile(lm: &LinearModel) -> Option<LinearModel> {
 }
 
 fn push_case(lm: &LinearModel, solved: &LinearModel, stream: &str, compiled: bool, variants: &gen_lp::Variants, out: &mut Vec<Case>) {
+    push_case_kind(SolverKind::Clarabel, lm, solved, stream, compiled, variants, out);
+}
+
+/// `kind`: the free function `solve_real_lp_problem_clarabel`, the solver OBJECT `rooc::Clarabel` (`Solver::solve`), or the
+/// whole builder door `ModelBuilder … solve_with(Clarabel)`
+fn push_case_kind(kind: SolverKind, lm: &LinearModel, solved: &LinearModel, stream: &str, compiled: bool, variants: &gen_lp::Variants, out: &mut Vec<Case>) {
     let opts = Opts::default();
-    let o = child::solve(SolverKind::Clarabel, solved, &opts, TIMEOUT);
+    let o = child::solve(kind, solved, &opts, TIMEOUT);
     let res = gen_lp::result(&o);
     let mut c = Case::default();
     c.imp = res.clone();
-    if !matches!(o, Outcome::Hang) {
+    let door = kind == SolverKind::BuilderDoorClarabel;
+    if !matches!(o, Outcome::Hang) && !door {
         c.req = gen_lp::clarabel_req(solved, &sx::lin_model(solved), variants, TIMEOUT).unwrap_or_default();
     }
-    c.oracle = if compiled { format!("shadow-compiled {} {} {}", sx::lin_model(lm), sx::lin_model(solved), res) }
+    // every accessor (capability traits, BuilderSolution) must agree with `shadow_prices()`: unnamed / unknown rows -> None
+    if let Outcome::Solution(sol) = &o {
+        if let Some(d) = gen_lp::accessor_disagreement(sol) {
+            c.impl_violation = Some(format!("{}: the accessors of the returned solution disagree: {}", kind.name(), d));
+            c.sig = Some("accessor-disagreement".into());
+        }
+    }
+    // through the builder door the compiled model differs from `lm` (derived bounds): only accessor agreement is judged
+    c.oracle = if door { String::new() } else if compiled { format!("shadow-compiled {} {} {}", sx::lin_model(lm), sx::lin_model(solved), res) }
                else { format!("shadow {} {}", sx::lin_model(lm), res) };
-    c.tags = vec![format!("stream-{}", stream), format!("sense-{}", sx::opt_type(lm.optimization_type())),
+    c.tags = vec![format!("stream-{}", stream), format!("entry-{}", kind.name()), format!("sense-{}", sx::opt_type(lm.optimization_type())),
         match &o { Outcome::Solution(_) => "answer-solution".to_string(), Outcome::Err { variant, .. } => format!("answer-err-{}", variant), Outcome::Panic(_) => "answer-panic".into(), Outcome::Hang => "answer-hang".into() }];
     for r in lm.constraints() {
         c.tags.push(format!("row-{}{}", sx::cmp(*r.constraint_type()), if r.name().is_empty() { "-unnamed" } else { "" }));
@@ -162,7 +177,21 @@ pub fn generate(seed: u64, n: usize, _thorough: bool, _corpus: Option<&str>) -> 
     if let Some(c) = compile(&s) { push_case(&s, &c, "seeded-compiled", true, variants, &mut cases); }
     for i in 0..n {
         match i % 4 {
-            0 | 1 => { let lm = constructed(&mut r, false); push_case(&lm, &lm, "constructed-direct", false, variants, &mut cases); }
+            0 => { let lm = constructed(&mut r, false); push_case(&lm, &lm, "constructed-direct", false, variants, &mut cases); }
+            1 => {
+                // the solver OBJECT of the builder layer, half of the time on an objective with coefficients above 1e4
+                let mut lm = constructed(&mut r, false);
+                let mut stream = "constructed-direct";
+                if i % 8 == 1 {
+                    let k = *r.pick(&[2.0e4, 1.0e5, 3.0e6]);
+                    let (obj, opt, off, rows, vars, dom) = lm.into_parts();
+                    lm = LinearModel::new_from_parts(obj.iter().map(|c| c * k).collect(), opt, off, rows, vars, dom);
+                    stream = "large-objective-coefficients";
+                }
+                push_case_kind(SolverKind::BuilderClarabel, &lm, &lm, stream, false, variants, &mut cases);
+                if i % 8 == 1 { push_case(&lm, &lm, stream, false, variants, &mut cases); }
+                if i % 16 == 5 { push_case_kind(SolverKind::BuilderDoorClarabel, &lm, &lm, "builder-door", false, variants, &mut cases); }
+            }
             2 => {
                 let tight = r.chance(1, 2);
                 let lm = constructed(&mut r, tight);
